@@ -222,7 +222,9 @@ def c12(ctx, rep):
     from . import secret_rmi, secret_struct, checks_secret, checks_ip, checks_rx
     from .ipmodel import IpModel
     secret_rmi.check_rmi(ctx, rep, "C12")
-    secret_struct.check_table(ctx, rep, "C12", want_catchalls=False)
+    _pfx, _grps, _parts = secret_struct.check_table(ctx, rep, "C12", want_catchalls=False)
+    from . import refpatterns
+    refpatterns.check(ctx, rep, "C12", _pfx, _grps, _parts)  # incl. secret-group-not-wider: text after the secret stays in place
     m = IpModel(ctx)
     checks_ip._undo_threading(ctx, m, rep, "C12")
     _word_and_as_shapes(ctx, rep, "C12")
@@ -664,6 +666,25 @@ def c16(ctx, rep):
     from .ipmodel import IpModel
     _private_merge(ctx, IpModel(ctx), rep, "C16")
     stream_open_rule(ctx, rep, "C16")
+    # single-file API: reads the named input, writes the named output, refuses only an output that is a directory
+    inf, outf = ("param", f_file.mparams[1]), ("param", f_file.mparams[2])
+    isdir_out = ("call", ("attr", ("attr", ("global", f_file.module.name, "os"), "path"), "isdir"), (outf,), ())
+    n_ok_paths = 0
+    for path in A.paths(f_file).paths:
+        if not path.feasible():
+            continue
+        if path.kind == "raise":
+            exact = path.entails(isdir_out, True)
+            rep.ob("C16.single-file-refusal", "anonymize_file", exact, "anonymize_file raises under %s; expected only when the output path is an existing directory" % path.describe()[:100], W(f_file, path.result[2]), key="C16.single-file-refusal|anonymize_file")
+            continue
+        n_ok_paths += 1
+        io_calls = [e.a for e, ls in path.calls() if M.callee_name(e.a) == "anonymize_io"]
+        okio = len(io_calls) == 1
+        if okio:
+            a = io_calls[0][2]
+            okio = len(a) == 2 and all(M.is_call(x) and x[1] == ("builtin", "open") for x in a) and a[0][2][:1] == (inf,) and a[1][2][:1] == (outf,) and open_mode(a[0]) in ("r", "rt") and open_mode(a[1]) in ("w", "wt")
+        rep.ob("C16.single-file-streams", "anonymize_file", okio, "anonymize_file processes %s; expected anonymize_io(open(in_file, 'r'), open(out_file, 'w'))" % [show(x)[:90] for x in io_calls], W(f_file), key="C16.single-file-streams|anonymize_file")
+    rep.ob("C16.single-file-works", "anonymize_file", n_ok_paths >= 1, "non-raising paths of anonymize_file: %d" % n_ok_paths, W(f_file), key="C16.single-file-works|anonymize_file")
     # parent directories: created exactly when the output path has a directory part
     if f_mk is not None:
         rep.analysed(f_mk)
@@ -829,6 +850,15 @@ def c19(ctx, rep):
         bad["missing-%s (absent or empty)" % opt] = n
     for k, v in bad.items():
         rep.ob("C19.validation-dominates", k, v == 0, "paths reaching anonymize_files on which the combination '%s' was not excluded by an earlier raising guard: %d of %d" % (k, v, len(reach)), W(f_main), key="C19.validation-dominates|%s" % k)
+    # ... and nothing else is rejected: every raising path of main has established one of the contradictory / unusable combinations
+    combos = [("undo together with anonymize", {A_("undo"): True, A_("anonymize_ips"): True}), ("undo without salt", {A_("undo"): True, isnone(A_("salt")): True}),
+              ("map dump without IP anonymization", {isnone(A_("dump_ip_map")): False, A_("anonymize_ips"): False}), ("missing input", {A_("input"): False}), ("missing output", {A_("output"): False})]
+    for path in fp.paths:
+        if not path.feasible() or path.kind != "raise":
+            continue
+        hit = [nm for nm, lits in combos if all(path.entails(t, v) for t, v in lits.items())]
+        rep.ob("C19.only-contradictions-rejected", "main", bool(hit), "main raises %s under %s; this is %s" % (show(path.result[1])[:60], path.describe()[:140], hit[0] if hit else "none of the contradictory or unusable combinations: a valid command line is refused"),
+               W(f_main, path.result[2]), key="C19.only-contradictions-rejected|%s" % show(path.result[1])[:50])
     # no write effect in main itself before/other than the call; guards raise
     from .checks_pipe import write_inventory as _wi
     for cs, kind, path_t, writing in _wi(ctx, rep, "C19"):
